@@ -24,7 +24,7 @@ ASSUMPTIONS = [
 TECHNIQUE = "metamorphic testing (rename / permute / prefix) over Hypothesis-generated problems with cross-pinning of schedules"
 
 PROFILE = S.profile(cond_mandatory_only=True, min_tasks=2, max_tasks=4, p_resources=70, task_constraints=(0, 2), optional_rules=(0, 1), resource_constraints=(0, 2), buffers=(0, 1),
-                    indicators=(0, 1), objectives=(0, 1), p_optional=40, p_work_amount=15, p_cumulative=35)
+                    indicators=(0, 1), objectives=(0, 1), p_optional=40, p_work_amount=15, p_cumulative=35, p_group_precedence=12)
 # strata: (a) workers shared between direct assignments of optional tasks and selections, under sorting constraints (parking
 # instants); (b) start-time objectives over optional tasks
 PROFILE_PARK = S.profile(cond_mandatory_only=True, min_tasks=2, max_tasks=4, horizon=(3, 7), p_resources=100, n_workers=(2, 3), p_select=70, p_cumulative=10, task_constraints=(0, 1), optional_rules=(0, 0),
@@ -38,6 +38,13 @@ PROFILE_WINDOWS = S.profile(cond_mandatory_only=True, min_tasks=2, max_tasks=4, 
 PROFILE_SORT = S.profile(cond_mandatory_only=True, min_tasks=3, max_tasks=4, horizon=(4, 8), p_no_horizon=0, p_resources=100, n_workers=(1, 2), p_select=10, p_cumulative=0,
                          task_constraints=(0, 1), optional_rules=(0, 0), resource_constraints=(0, 0), buffers=(0, 1), indicators=(1, 2), indicator_types=["ResourceIdle", "ResourceIdle", "MaxBufferLevel"],
                          indicator_constraints=40, objectives=(0, 1), only_objectives=["MinimizeIndicator", "MaximizeIndicator"], p_optional=15, p_work_amount=0)
+# constraints whose encoding loops over the tasks of a worker in declaration order and carries state from one task to the
+# next (interruptions lengthening variable-duration tasks, periodic masks): several variable-duration tasks on one worker
+PROFILE_CARRY = S.profile(cond_mandatory_only=True, min_tasks=2, max_tasks=3, horizon=(4, 9), p_no_horizon=0, p_resources=100, n_workers=(1, 1), p_select=0, p_cumulative=15,
+                          task_kinds=("var",) * 4 + ("fixed",), task_constraints=(0, 1), optional_rules=(0, 0), resource_constraints=(1, 2),
+                          focus=["ResourceInterrupted", "ResourceInterrupted", "ResourcePeriodicallyInterrupted", "WorkLoad"], objectives=(0, 1), only_objectives=["MinimizeMakespan", "MinimizeFlowtime"],
+                          p_optional=15, p_work_amount=10, p_dynamic=0, p_delay=10,
+                          exclude=("SameWorkers", "DistinctWorkers", "ResourceNonDelay", "ResourceTasksDistance"))
 PREFIX_PROFILE = S.profile(cond_mandatory_only=True, min_tasks=1, max_tasks=3, p_resources=60, task_constraints=(0, 1), optional_rules=(0, 0), resource_constraints=(0, 1), objectives=(0, 1), p_optional=40)
 NAME_POOL = ["a", "b", "x", "t", "A1", "Task", "task_1", "task_2", "W", "worker", "Ωmega", "tâche", "name with space", "a.b", "x_start", "x_end", "q" * 24,
              "T1", "T2", "T3", "W1", "W2", "K1", "S1", "B1", "c1", "z_busy", "_lead", "n-1", "0", "17", "Selected", "horizon2"]
@@ -368,6 +375,7 @@ def run_shard(ctx):
     run_hypothesis(ctx, cases(PROFILE_STARTOBJ), prop, max_examples=n // 2)
     run_hypothesis(ctx, cases(PROFILE_WINDOWS), prop, max_examples=n)
     run_hypothesis(ctx, cases(PROFILE_SORT), prop, max_examples=n // 2)
+    run_hypothesis(ctx, cases(PROFILE_CARRY), prop, max_examples=n)
 
 
 def replay(record):
